@@ -67,7 +67,7 @@ def reference(hist, impl_out):
         op = t[0]
         v = int(t[1]) if len(t) > 1 else 0
         w = int(t[2]) if len(t) > 2 and op in ("copy", "assignb", "prependb", "appendb", "swap", "eq") else 0
-        if op == "state":
+        if op in ("state", "heap"):
             out.append(None)        # white-box line: compared with the model only
             continue
         if op == "eq":
@@ -195,7 +195,8 @@ def gen_history(rng, length, attached_regions=True, big=False):
         elif k < 0.90: op = f"newdata {v} {rand_bytes(rng, n)}"; ln[v] = n
         elif k < 0.92: op = f"copy {v} {w}"; ln[v] = ln[w]
         elif k < 0.94: op = f"eq {v} {w}"
-        elif k < 0.955: op = f"state {v}"
+        elif k < 0.95: op = f"state {v}"
+        elif k < 0.96: op = "heap"
         elif attached_regions:
             r = rng.randrange(2)
             off = rng.randrange(REGLEN[r] + 1)
@@ -221,7 +222,7 @@ def gen_server(rng, length):
         elif k < 0.85:
             n = rng.choice([1, 2, ln // 2, max(0, ln - 1), ln, ln + 1]) if ln else 1
             h.append(f"removeFront 0 {n}"); ln = max(0, ln - n)
-            h.append("state 0")
+            h.append("state 0"); h.append("heap")
             if ln == 0 and rng.random() < 0.5:
                 h.append("free 0")
         elif k < 0.92:
@@ -245,7 +246,7 @@ SMALL_OPS = [
 
 def exhaustive(depth, rng=None, limit=None):
     # every history ends with the white-box view of both variables (all prefixes are histories of the scope too)
-    hs = [list(p) + ["state 0", "state 1"] for d in range(1, depth + 1) for p in itertools.product(SMALL_OPS, repeat=d)]
+    hs = [list(p) + ["state 0", "state 1", "heap"] for d in range(1, depth + 1) for p in itertools.product(SMALL_OPS, repeat=d)]
     if limit and len(hs) > limit:
         rng.shuffle(hs)
         hs = hs[:limit]
@@ -267,7 +268,7 @@ def boundary_family(maxcap):
                     d = hexs([0x41 + i for i in range(n)])
                     tails += [f"resize 0 {n}", f"append 0 {d}", f"prepend 0 {d}", f"assign 0 {d}", f"removeBack 0 {n}",
                               f"reserve 0 {n}"]
-                hs += [pre + [t, "state 0", "state 1", "prepend 0 7a", "eq 0 1", "state 0"] for t in tails]
+                hs += [pre + [t, "state 0", "state 1", "heap", "prepend 0 7a", "eq 0 1", "state 0", "heap"] for t in tails]
     return hs
 
 
